@@ -8,15 +8,17 @@ export GOFLAGS=-mod=mod GOPROXY=off GOSUMDB=off GOTOOLCHAIN=local
 if [ ! -d "$WT" ]; then git -C /repo worktree add -q --detach "$WT" HEAD || exit 2; fi
 HEADSHA=$(git -C /repo rev-parse --short HEAD)
 reset() { git -C "$WT" checkout -q --detach "$HEADSHA" && git -C "$WT" reset -q --hard && git -C "$WT" clean -fdq; }
-place() { for d in pkg cmd tests; do [ -d "$SRC/demo/$d" ] && cp -r "$SRC/demo/$d" "$WT/"; done; }
+# demo scripts locate the tree either by their first argument or relative to their own place (_out/<X>/demo):
+# give them both, and put the demo files where they compile
+place() { for d in pkg cmd tests; do [ -d "$SRC/demo/$d" ] && cp -r "$SRC/demo/$d" "$WT/"; done; mkdir -p "$WT/_out"; rm -rf "$WT/_out/X"; cp -r "$SRC" "$WT/_out/X"; }
 reset; place
-bash "$SRC/demo/run.sh" "$WT" >/tmp/confirm.$$.clean 2>&1; RC_CLEAN=$?
+bash "$WT/_out/X/demo/run.sh" "$WT" >/tmp/confirm.$$.clean 2>&1; RC_CLEAN=$?
 reset
 git -C "$WT" apply "$SRC/patch.diff" || { echo "$ID: patch does not apply on $HEADSHA"; exit 1; }
 ( cd "$WT" && go build ./... ) || { echo "$ID: does not build"; reset; exit 1; }
 "$ROOT/tools/suite.sh" "$WT" >/tmp/confirm.$$.suite 2>&1; RC_SUITE=$?
 place
-bash "$SRC/demo/run.sh" "$WT" >/tmp/confirm.$$.mut 2>&1; RC_MUT=$?
+bash "$WT/_out/X/demo/run.sh" "$WT" >/tmp/confirm.$$.mut 2>&1; RC_MUT=$?
 reset
 echo "$ID: demo on clean tree exit=$RC_CLEAN (want 0); suite with change exit=$RC_SUITE (want 0): $(head -n 1 /tmp/confirm.$$.suite); demo with change exit=$RC_MUT (want != 0)"
 if [ "$RC_CLEAN" = 0 ] && [ "$RC_SUITE" = 0 ] && [ "$RC_MUT" != 0 ]; then
